@@ -22,3 +22,23 @@ Definition api_cv_fusion_realizable_secvoid (v : val) : val :=
   let x := fuse_secvoid (cv_input (argn 0 v)) (getZ (argn 1 v)) (cv_input (argn 2 v)) (getZ (argn 3 v)) in
   let m := fusion_set x in
   VL (map (fun p => ofB (mem_seq (getS p) m)) (getL (argn 4 v))).
+
+(* ---- general breakpoints ---- *)
+Definition cv_vars (v : val) : list variant := map cv_var (getL v).
+
+(* [xd; bp; mid; mvars; xa; bp'; peptides] -> [realizable_fusion_g ...] *)
+Definition api_cv_fusion_realizable_g (v : val) : val :=
+  let x := fuse_gen (cv_input (argn 0 v)) (getZ (argn 1 v)) (getS (argn 2 v)) (cv_vars (argn 3 v))
+                    (cv_input (argn 4 v)) (getZ (argn 5 v)) in
+  let m := fusion_set_t x in
+  VL (map (fun p => ofB (mem_seq (getS p) m)) (getL (argn 6 v))).
+
+(* [xd; bp; mid; mvars; xa; bp'] -> must_fusion_set_g *)
+Definition api_cv_fusion_must_g (v : val) : val :=
+  ofSS (cv_dedup (must_fusion_set_g (cv_input (argn 0 v)) (getZ (argn 1 v)) (getS (argn 2 v)) (cv_vars (argn 3 v))
+                                    (cv_input (argn 4 v)) (getZ (argn 5 v)))).
+
+(* [xd; bp; mid; mvars; xa; bp'] -> fused backbone (diagnosis) *)
+Definition api_cv_fusion_tx_g (v : val) : val :=
+  ofS (in_tx (fuse_gen (cv_input (argn 0 v)) (getZ (argn 1 v)) (getS (argn 2 v)) (cv_vars (argn 3 v))
+                       (cv_input (argn 4 v)) (getZ (argn 5 v)))).
